@@ -288,6 +288,29 @@ let op_opt_resolve = function
        | _ -> "BADCLI")
   | _ -> "BADARGS"
 
+(* ---- line numbers (C05) *)
+let string_of_optn = function None -> "" | Some n -> string_of_int (int_of_n n)
+
+(* lineno_unified l r kinds(-+0w) *)
+let op_lineno_unified = function
+  | [ l; r; ks ] ->
+      let kinds = L.map (function '-' -> LineNo.KMinus | '+' -> LineNo.KPlus | '0' -> LineNo.KZero | _ -> LineNo.KWrapped)
+          (L.of_seq (S.to_seq ks)) in
+      let res = LineNo.run_unified (n_of_int (int_of_string l), n_of_int (int_of_string r)) kinds in
+      "OK\t" ^ S.concat ";" (L.map (fun (a, b) -> string_of_optn a ^ "," ^ string_of_optn b) res)
+  | _ -> "BADARGS"
+
+(* lineno_sbs l r rows : each row two chars from {f,w,n} *)
+let op_lineno_sbs = function
+  | [ l; r; rows ] ->
+      let half = function 'f' -> LineNo.HFirst | 'w' -> LineNo.HWrapped | _ -> LineNo.HNone in
+      let n = S.length rows / 2 in
+      let rs = L.init n (fun i -> (half (S.get rows (2 * i)), half (S.get rows (2 * i + 1)))) in
+      let (res, (fl, fr)) = LineNo.run_sbs (n_of_int (int_of_string l), n_of_int (int_of_string r)) rs in
+      "OK\t" ^ S.concat ";" (L.map (fun (a, b) -> string_of_optn a ^ "," ^ string_of_optn b) res)
+      ^ "\t" ^ string_of_int (int_of_n fl) ^ "," ^ string_of_int (int_of_n fr)
+  | _ -> "BADARGS"
+
 (* blame_run n keys gitflags *)
 let op_blame_run = function
   | [ n; keys; flags ] ->
@@ -308,6 +331,8 @@ let op_blame_spec = function
   | _ -> "BADARGS"
 
 let dispatch = function
+  | "lineno_unified" :: args -> op_lineno_unified args
+  | "lineno_sbs" :: args -> op_lineno_sbs args
   | "opt_resolve" :: args -> op_opt_resolve args
   | "align_ops" :: args -> op_align_ops args
   | "tokenize" :: args -> op_tokenize args
